@@ -338,7 +338,7 @@ def run(ctx):
     thorough = ctx.tier == "thorough"
     rng = ctx.rng
     # float witnesses (Findings): Print Assumptions lists the PrimFloat primitives unqualified because Props.v imports PrimFloat
-    ctx.proofs(["C17/Props.v", "C17/PropsConsts.v"], extra_axioms=("float", "add", "sub", "mul", "div", "opp", "abs", "ltb", "leb", "eqb", "sqrt"))
+    ctx.proofs(["C17/Props.v", "C17/PropsConsts.v", "C17/PropsTie.v"], extra_axioms=("float", "add", "sub", "mul", "div", "opp", "abs", "ltb", "leb", "eqb", "sqrt"))
     ctx.trusted.append("float objective: jitted function and Coq term generated from the same expression tree "
                        "(harness/c17.py TREES); Numba/LLVM assumed not to reorder/contract float operations "
                        "(checked: jitted objective == python objective on every reported root)")
